@@ -195,6 +195,7 @@ c01_cases = [
     case("n0=0 2 rounds pool 1 F=0 C=1 arbitrary clock", "VerifC01", [0, 2, 1, 0, 1, 0], ["final", "audited"], Q),
     case("n0=255 1 round pool 2 F=1 C=0", "VerifC01", [255, 1, 2, 1, 0, 1], ["final", "audited"], Q),
     case("n0=255 1 round pool 2 F=0 C=1", "VerifC01", [255, 1, 2, 0, 1, 1], ["final", "audited"], Q),
+    case("n0=255 3 rounds pool 1 no faults (reaching and leaving the tile boundary in one instance)", "VerifC01", [255, 3, 1, 0, 0, 1], ["final", "audited"], Q),
     case("n0=1 2 rounds pool 1 F=1 C=0 arbitrary clock", "VerifC01", [1, 2, 1, 1, 0, 0], ["final", "audited", "fatal"], T),
     case("n0=0 2 rounds pool 2 F=1 C=1", "VerifC01", [0, 2, 2, 1, 1, 1], ["final", "audited"], T),
     case("n0=255 1 round pool 2 F=1 arbitrary clock", "VerifC01", [255, 1, 2, 1, 0, 0], ["final", "audited"], T),
